@@ -288,6 +288,14 @@ pub fn run_rta(ctx: &mut Ctx) {
             }
         }
     }
+    // a fixed input that reproduces the listed finding F9 on every run (request bound over an ArrivalCurvePrefix)
+    for p in ["fp_p", "edf_p", "fifo"] {
+        if wanted(p) {
+            let t = json!({"a": {"k": "acp", "h": 10, "steps": [[1, 1], [5, 2]]}, "c": {"k": "scalar", "c": 1}, "C": 1,
+                           "D": 6, "seg": 1, "last": 1});
+            emit_rta(ctx, p, &t, &[t.clone()], 0, 20, 8);
+        }
+    }
     // seeded random: 1-4 tasks, jitter, bursts, arbitrary cost models where the API allows
     let n = if ctx.thorough { 60000 } else { 6000 };
     let (tmax, limmax) = if ctx.thorough { (30, 150) } else { (12, 60) };
